@@ -91,6 +91,13 @@ class PerFileModel:
             out[fid] = (key, lc, tuple(hs))
             if lc == rid:
                 tg[rid] = tuple(hs)
+            if len(parents) > 2 and fid != tm.ROOT_ID:
+                left0 = self.ent[parents[0]].get(fid)
+                rest = [self.ent[q][fid][1] for q in parents[1:]
+                        if fid in self.ent[q]]
+                if any(rest.count(v) > 1 and (left0 is None or left0[1] != v)
+                       for v in rest):
+                    feats.add("octopus-shared-version")
             if len(parents) > 1 and fid != tm.ROOT_ID:
                 left = self.ent[parents[0]].get(fid)
                 if len(hs) >= 2:
@@ -143,7 +150,7 @@ class PerFileModel:
         return out
 
 
-NT_PRIORITY = ["revision-graph-heads-differ", "identical-parallel-change", "merged-change-reverted",
+NT_PRIORITY = ["octopus-shared-version", "revision-graph-heads-differ", "identical-parallel-change", "merged-change-reverted",
                "three-heads", "per-file-fork", "changed-after-merge",
                "carried-from-merged-parent"]
 
@@ -630,6 +637,37 @@ class Script:
             except errors.DivergedBranches:
                 pass
             self.tidy(dst)
+        elif k == "octo":
+            dst = trees[step[1] % len(trees)]
+            n0 = len(dst.get_parent_ids())
+            for si in (step[2], step[3]):
+                src = trees[si % len(trees)]
+                if src is dst:
+                    continue
+                try:
+                    self._setup("merge_from_branch", dst.merge_from_branch,
+                                src.branch, force=True)
+                except PointlessMerge:
+                    continue
+            if len(dst.get_parent_ids()) == n0:
+                return
+            if dst.conflicts():
+                self.stats["conflicted"] += 1
+                dst.set_conflicts([])
+            rv = step[4]
+            if rv is not None:
+                ents = self._ents(dst)
+                paths = [e[1] for e in ents] if rv == "all" else (
+                    sorted({ents[i % len(ents)][1] for i in rv})
+                    if ents else [])
+                if paths:
+                    self._setup("revert", dst.revert, paths, backups=False)
+                    self.stats["reverts"] += 1
+            for op in step[5]:
+                self.apply_lop(dst, op)
+            npar = len(dst.get_parent_ids())
+            if self.commit_or_restore(dst) and npar > 2:
+                self.stats["octopus"] = self.stats.get("octopus", 0) + 1
         elif k in ("merge", "cherry"):
             dst = trees[step[1] % len(trees)]
             src = trees[step[2] % len(trees)]
